@@ -25,7 +25,8 @@ from comb_spec_searcher import (
     StrategyPack,
 )
 from comb_spec_searcher.exception import InvalidOperationError
-from comb_spec_searcher.strategies.strategy import StrategyFactory, SymmetryStrategy, VerificationStrategy
+from comb_spec_searcher.strategies.constructor.base import Constructor
+from comb_spec_searcher.strategies.strategy import Strategy, StrategyFactory, SymmetryStrategy, VerificationStrategy
 
 
 class W(str, CombinatorialObject):
@@ -612,6 +613,78 @@ class MixFactory(StrategyFactory):
         return "MixFactory"
 
 
+class Shift(Constructor):
+    """The parent's objects are the child's objects with k more letters: a(n) = b(n - k).  Not an equivalence."""
+
+    def __init__(self, k):
+        self.k = k
+
+    def can_be_equivalent(self):
+        return False
+
+    def get_equation(self, lhs_func, rhs_funcs):
+        return sympy.Eq(lhs_func, sympy.var("x") ** self.k * rhs_funcs[0])
+
+    def reliance_profile(self, n, **parameters):
+        raise NotImplementedError
+
+    def get_terms(self, parent_terms, subterms, n):
+        return Counter(subterms[0](n - self.k)) if n - self.k >= 0 else Counter()
+
+    def get_sub_objects(self, subobjs, n):
+        if n - self.k >= 0:
+            for param, objs in subobjs[0](n - self.k).items():
+                yield (param, (objs,))
+
+    def random_sample_sub_objects(self, parent_count, subsamplers, subrecs, n, **parameters):
+        return (subsamplers[0](n=n - self.k, **parameters),)
+
+    def equiv(self, other, data=None):
+        return (isinstance(other, Shift) and other.k == self.k, None)
+
+    def __str__(self):
+        return "shift by %d" % self.k
+
+
+class Drop(_NoArgs, Strategy):
+    """Lang(q, prefix) -> Lang(q, ""): forget the prefix.  A two-way one-child rule that shifts the size, hence not an
+    equivalence: the default rule database nevertheless puts both classes into one equivalence class."""
+
+    DEFAULTS = dict(ignore_parent=True, inferrable=False, possibly_empty=False, workable=True)
+
+    def can_be_equivalent(self):
+        return False
+
+    def is_two_way(self, comb_class):
+        return True
+
+    def is_reversible(self, comb_class):
+        return True
+
+    def shifts(self, comb_class, children=None):
+        return (len(comb_class.prefix),)
+
+    def decomposition_function(self, c):
+        if c.atom or not c.prefix or c.stats or c.is_empty():
+            return None
+        return (Lang(c.t, c.q, "", False, ""),)
+
+    def constructor(self, comb_class, children=None):
+        return Shift(len(comb_class.prefix))
+
+    def reverse_constructor(self, idx, comb_class, children=None):
+        return Shift(-len(comb_class.prefix))
+
+    def formal_step(self):
+        return "drop the prefix"
+
+    def backward_map(self, c, objs, children=None):
+        yield W(c.prefix + objs[0])
+
+    def forward_map(self, c, obj, children=None):
+        return (W(obj[len(c.prefix):]),)
+
+
 class SplitFirstOpaque(SplitFirst):
     """SplitFirst that declines on the start class Lang(0, ""): that class can then only be specified backwards, as the
     quotient of Lang(0, x) = Atom(x) x Lang(0, "") where Lang(0, x) is the complement of a predecessor's split."""
@@ -700,7 +773,7 @@ class BackFactory(StrategyFactory):
         return "BackFactory"
 
 
-OPTION_NAMES = ("iterative", "inferral", "symmetry", "factory", "factory2", "finite", "finite-mixed", "two", "oneway", "opaque")
+OPTION_NAMES = ("iterative", "inferral", "symmetry", "factory", "factory2", "finite", "finite-mixed", "two", "oneway", "opaque", "drop")
 
 
 def mkpack(opts=(), finite=None):
@@ -724,6 +797,8 @@ def mkpack(opts=(), finite=None):
         ver = ver + [OracleVer()]
     # with a factory in the pack the prefix is peeled by the factory's ready rule, not by an initial strategy
     init = [] if ("factory" in opts or "factory2" in opts) else [PeelPrefix()]
+    if "drop" in opts and not stats:
+        init = [Drop()]
     if "oneway" in opts:
         # a one-way rule between two classes first (initial strategy), later a two-way rule between the same classes
         init = init + [RotateState()]
@@ -753,7 +828,7 @@ def selftest_table(t, stats_modes=("", "k", "kk", "ku"), N=4):
             assert c.is_empty() == (not any(words(c.t, n, c.q, c.prefix) for n in range(len(c.prefix), len(c.prefix) + c.t.S + 1)) and not c.atom), c
             if not c.is_empty():
                 assert c.minimum_size_of_object() == min(n for n in range(len(c.prefix) + c.t.S + 2) if (c.atom and n == len(c.prefix)) or (not c.atom and words(c.t, n, c.q, c.prefix))), c
-            for strat in (SplitFirst(), SplitTwo(), PeelPrefix(), MergeState(), RotateState()) + ((SwapLetters(),) if not stats else ()):
+            for strat in (SplitFirst(), SplitTwo(), PeelPrefix(), MergeState(), RotateState()) + ((SwapLetters(), Drop()) if not stats else ()):
                 kids = strat.decomposition_function(c)
                 if kids is None:
                     continue
@@ -763,7 +838,10 @@ def selftest_table(t, stats_modes=("", "k", "kk", "ku"), N=4):
                         parts = strat.forward_map(c, W(o), kids)
                         assert len(parts) == len(kids)
                         pvals = dict(zip(c.extra_parameters, c.get_parameters(o)))
-                        if isinstance(strat, CartesianProductStrategy):
+                        if isinstance(strat, Drop):
+                            assert parts[0] in set(kids[0].objects_of_size(len(parts[0]))) and len(parts[0]) == len(o) - len(c.prefix)
+                            assert list(strat.backward_map(c, parts, kids)) == [o]
+                        elif isinstance(strat, CartesianProductStrategy):
                             assert all(p is not None and p in set(k.objects_of_size(len(p))) for p, k in zip(parts, kids)), (c, strat, o, parts)
                             for q in c.extra_parameters:
                                 tot = sum(dict(zip(k.extra_parameters, k.get_parameters(p)))[m[q]] for p, k, m in zip(parts, kids, maps) if q in m)
@@ -779,7 +857,9 @@ def selftest_table(t, stats_modes=("", "k", "kk", "ku"), N=4):
                                 assert pvals[q] == (cvals[maps[i][q]] if q in maps[i] else 0), (c, strat, o, maps[i])
                             assert list(strat.backward_map(c, parts, kids)) == [o] or isinstance(strat, SwapLetters) and list(strat.backward_map(c, parts, kids)) == [o]
                     # children partition / factor the parent: sizes match
-                    if isinstance(strat, CartesianProductStrategy):
+                    if isinstance(strat, Drop):
+                        cnt = len(list(kids[0].objects_of_size(n - len(c.prefix)))) if n >= len(c.prefix) else 0
+                    elif isinstance(strat, CartesianProductStrategy):
                         cnt = sum(len(list(kids[0].objects_of_size(i))) * len(list(kids[1].objects_of_size(n - i))) for i in range(n + 1))
                     else:
                         cnt = sum(len(list(k.objects_of_size(n))) for k in kids)
